@@ -768,6 +768,64 @@ func genC19(r *RNG, tier string) []Case {
 			return im == fmt.Sprintf("ok:%d,%d,%d,%s", dom, srv, seq, b01(fl&1 == 0)), "MariaDB GTID event does not decode to what the master wrote"
 		})
 	}
+	// previous-GTIDs events (and GTID events) as they travel: with the checksum a CRC32 master appends, removed by
+	// the library's own StripChecksum before the body decoder runs
+	for i := 0; i < n/3; i++ {
+		s := randCanonSet(r, i%2 == 0)
+		body := s.impl().SIDBlock()
+		crcOn := i%2 == 1
+		mk := func(typ byte, b []byte) []byte {
+			ev := append(make([]byte, 19), b...)
+			if crcOn {
+				ev = append(ev, r.Bytes(4)...)
+			}
+			ev[4] = typ
+			l := len(ev)
+			ev[9], ev[10], ev[11], ev[12] = byte(l), byte(l>>8), byte(l>>16), byte(l>>24)
+			return ev
+		}
+		alg := byte(0)
+		if crcOn {
+			alg = 1
+		}
+		f := replication.BinlogFormat{FormatVersion: 4, HeaderLength: 19, ChecksumAlgorithm: alg}
+		pev := mk(35, body)
+		simple("g56 op=fromblock b="+hx(body), fmt.Sprintf("previous-gtids-event-crc%d", b2i(crcOn)), func() string {
+			var e replication.BinlogEvent = replication.NewMysql56BinlogEvent(exact(pev))
+			if !e.IsValid() || !e.IsPreviousGTIDs() {
+				return "not-recognised"
+			}
+			e, _, err := e.StripChecksum(f)
+			if err != nil {
+				return "err"
+			}
+			pos, err := e.PreviousGTIDs(f)
+			if err != nil {
+				return "err"
+			}
+			return "ok:" + showImplSet(pos.(replication.Mysql56GTIDSet))
+		}, func(im string) (bool, string) {
+			return im == "ok:"+s.abs(), "previous-GTIDs event does not decode to the set the master wrote"
+		})
+		sidb, gno := r.Bytes(16), boundaryU64(r)
+		gb := append(append([]byte{byte(r.Intn(2))}, sidb...), leBytes(gno, 8)...)
+		gev := mk(33, gb)
+		simple(fmt.Sprintf("gtid56ev f=19:0: b=%s", hx(append(make([]byte, 19), gb...))), fmt.Sprintf("gtid-event-stripped-crc%d", b2i(crcOn)), func() string {
+			var e replication.BinlogEvent = replication.NewMysql56BinlogEvent(exact(gev))
+			e, _, err := e.StripChecksum(f)
+			if err != nil {
+				return "err"
+			}
+			g, _, err := e.GTID(f)
+			if err != nil {
+				return "err"
+			}
+			y := g.(replication.Mysql56GTID)
+			return fmt.Sprintf("ok:%s,%d", hx(y.Server[:]), y.Sequence)
+		}, func(im string) (bool, string) {
+			return im == fmt.Sprintf("ok:%s,%d", hx(sidb), int64(gno)), "GTID event (checksum stripped) does not decode to the identifier the master wrote"
+		})
+	}
 	// malformed text stream (correspondence only)
 	bad := []string{"", ":", "x:1", "00000000-0000-0000-0000-000000000000", "00000000-0000-0000-0000-000000000000:", "00000000-0000-0000-0000-000000000000:0",
 		"00000000-0000-0000-0000-000000000000:1-", "00000000-0000-0000-0000-000000000000:5-2", "00000000-0000-0000-0000-000000000000:1-2-3", "00000000-0000-0000-0000-00000000000g:1",
